@@ -223,6 +223,10 @@ fn run_process_party(prog: &ProgSpec, party: &PartySpec) -> Result<Vec<(Outcome,
             Ok(p) if std::path::Path::new(&p).exists() => std::path::PathBuf::from(p),
             _ => return Err("no nodebug build available (not a thorough run through ./check)".into()),
         },
+        Some("devbuild") => match std::env::var("VERIF_DEVBUILD_BIN") {
+            Ok(p) if std::path::Path::new(&p).exists() => std::path::PathBuf::from(p),
+            _ => return Err("no devbuild (nodebug-style twin) available (not a thorough run through ./check)".into()),
+        },
         _ => std::env::current_exe().map_err(|e| e.to_string())?,
     };
     let single = World { program: prog.clone(), parties: vec![PartySpec { process: false, ..party.clone() }], concurrent: None };
@@ -376,13 +380,15 @@ pub struct Tier {
     pub concurrent: u64,
     /// programs of several million gates (beyond 2^20-entry table thresholds); very few parties
     pub huge: u64,
+    /// expressions nested 50 .. 4000 levels deep (decisions that depend on recursion depth / stack use)
+    pub deep: u64,
 }
 
 pub fn tier(t: &str) -> Tier {
     if t == "thorough" {
-        Tier { parties: 48, generated: 40_000, ill_typed: 2_000, big: 96, concurrent: 3_000, huge: 8 }
+        Tier { parties: 48, generated: 40_000, ill_typed: 2_000, big: 96, concurrent: 3_000, huge: 8, deep: 1_200 }
     } else {
-        Tier { parties: 12, generated: 1_500, ill_typed: 100, big: 8, concurrent: 120, huge: 1 }
+        Tier { parties: 12, generated: 1_500, ill_typed: 100, big: 8, concurrent: 120, huge: 1, deep: 24 }
     }
 }
 
@@ -398,10 +404,10 @@ impl Plan {
     pub fn load(t: &str) -> Result<Plan, String> {
         let corpus = load_corpus()?;
         let n = corpus.len() as u64;
-        Ok(Plan { corpus, n_corpus: n, tier: tier(t), nodebug_parties: t == "thorough" })
+        Ok(Plan { corpus, n_corpus: n, tier: tier(t), nodebug_parties: t == "thorough" || std::env::var("VERIF_NODEBUG_IN_QUICK").is_ok() })
     }
     pub fn n_cases(&self) -> u64 {
-        self.n_corpus + self.tier.generated + self.tier.ill_typed + self.tier.big + self.tier.concurrent + self.tier.huge
+        self.n_corpus + self.tier.generated + self.tier.ill_typed + self.tier.big + self.tier.concurrent + self.tier.huge + self.tier.deep
     }
 }
 
@@ -504,6 +510,11 @@ pub fn make_world(plan: &Plan, seed: u64, idx: u64) -> (World, String, Prng) {
         ("ill_typed", format!("ill-{idx}"), gen::ill_typed(&mut p))
     } else if idx < plan.n_corpus + plan.tier.generated + plan.tier.ill_typed + plan.tier.big {
         ("big", format!("big-{idx}"), gen::big_program(&mut p))
+    } else if idx >= plan.n_corpus + plan.tier.generated + plan.tier.ill_typed + plan.tier.big + plan.tier.concurrent + plan.tier.huge {
+        // log-uniform in 4 .. 4000: thresholds of a development build sit at a few dozen levels,
+        // those of an optimised build at a few hundred or thousand
+        let depth = (4.0 * (1000.0f64).powf(p.below(10_000) as f64 / 10_000.0)) as usize;
+        ("deep", format!("deep-{idx}-{depth}"), gen::deep_program(&mut p, depth))
     } else if idx >= plan.n_corpus + plan.tier.generated + plan.tier.ill_typed + plan.tier.big + plan.tier.concurrent {
         ("huge", format!("huge-{idx}"), gen::huge_program(&mut p))
     } else if p.chance(1, 4) && plan.n_corpus > 0 {
@@ -535,12 +546,12 @@ pub fn make_world(plan: &Plan, seed: u64, idx: u64) -> (World, String, Prng) {
         fns.push("main".into());
     }
     // a function that does not exist is asked for as well: every party must get the same error
-    if !matches!(family, "big" | "huge") {
+    if !matches!(family, "big" | "huge" | "deep") {
         let missing = if fns.iter().any(|f| f == "main") { "no_such_function".to_string() } else { "main".to_string() };
         fns.push(missing);
     }
     let light = src.len() > 6000;
-    let nparties = if family == "huge" {
+    let nparties = if family == "huge" || family == "deep" {
         2
     } else if family == "concurrent" {
         // sometimes more callers than the machine has CPUs
@@ -564,6 +575,11 @@ pub fn make_world(plan: &Plan, seed: u64, idx: u64) -> (World, String, Prng) {
             let f = fns[0].clone();
             let st = |register: bool, dedup: bool, mode: Mode| Step { fn_name: f.clone(), opts: Opts { register, dedup }, mode, perm: vec![], cap: 0, warm_src: None };
             party.steps = vec![st(false, true, Mode::Src), st(false, true, Mode::Src), st(false, false, Mode::Src), st(true, true, Mode::Typed), st(false, true, Mode::Typed)];
+        }
+    }
+    if family == "deep" {
+        for party in parties.iter_mut() {
+            party.steps = vec![simple_step(&fns[0], Opts { register: false, dedup: true })];
         }
     }
     if family == "huge" {
@@ -591,7 +607,7 @@ pub fn make_world(plan: &Plan, seed: u64, idx: u64) -> (World, String, Prng) {
     // process history: some parties compiled something else before
     let adv = adversarial_warm(&src);
     for party in parties.iter_mut() {
-        if family != "huge" && p.chance(1, 3) {
+        if family != "huge" && family != "deep" && p.chance(1, 3) {
             // what the process did before: the adversarial program, another generated program, or a
             // compilation that FAILS (ill-typed program; error paths must not leave state behind)
             let other = match p.below(5) {
@@ -603,7 +619,17 @@ pub fn make_world(plan: &Plan, seed: u64, idx: u64) -> (World, String, Prng) {
         }
     }
     // two parties that are real, fresh OS processes with the SAME keys: one cold, one with a history
-    if family == "huge" {
+    if family == "deep" {
+        // a cold process party and (thorough tier) its differently built twin
+        let keys = Keys { k0: p.next_u64(), k1: p.next_u64(), drift: 0 };
+        let target = simple_step(&fns[0], Opts { register: false, dedup: true });
+        parties.push(PartySpec { keys, steps: vec![target.clone()], process: true, alloc_limit: None, env_flip: vec![], build: None, cpus: None });
+        if plan.nodebug_parties {
+            parties.push(PartySpec { keys, steps: vec![target.clone()], process: true, alloc_limit: None, env_flip: vec![], build: Some("nodebug".into()), cpus: None });
+            // and a party using a development build (opt-level 0: very different stack frames)
+            parties.push(PartySpec { keys, steps: vec![target], process: true, alloc_limit: None, env_flip: vec![], build: Some("devbuild".into()), cpus: None });
+        }
+    } else if family == "huge" {
         // one cold process party, nothing else
         let keys = Keys { k0: p.next_u64(), k1: p.next_u64(), drift: 0 };
         let target = simple_step(&fns[0], Opts { register: false, dedup: true });
@@ -624,6 +650,9 @@ pub fn make_world(plan: &Plan, seed: u64, idx: u64) -> (World, String, Prng) {
         if plan.nodebug_parties {
             // the cold party's twin, running a release-style build of the library
             parties.push(PartySpec { keys, steps: vec![target.clone()], process: true, alloc_limit: None, env_flip: vec![], build: Some("nodebug".into()), cpus: None });
+            if family == "generated" && p.chance(1, 6) {
+                parties.push(PartySpec { keys, steps: vec![target.clone()], process: true, alloc_limit: None, env_flip: vec![], build: Some("devbuild".into()), cpus: None });
+            }
         }
         parties.push(PartySpec { keys, steps: warm, process: true, alloc_limit: None, env_flip: vec![], build: None, cpus: None });
         // the cold party's twins on machines with 1 and 2 usable CPUs (large programs always, others sometimes)
@@ -1013,11 +1042,28 @@ pub fn fidelity_child() -> i32 {
     }
     // a process party has its own idea of the time too (a warm party: later than its cold twin)
     let warmed = party.steps.iter().any(|s| s.mode == Mode::Warm) as u64;
-    crate::seams::enter_party_clock(party_time_ns(&party.keys) + warmed * 3_600_000_000_000, party_clock_step_ns(&party.keys));
-    crate::seams::enter_party_env(party.env_flip.clone());
-    let outs = run_steps(&w.program, &party.steps);
-    crate::seams::leave_party_env();
-    crate::seams::leave_party_clock();
+    // the steps run on a thread with a large stack (deeply nested programs), bound to the same keys
+    // the main thread just took; clock and environment belong to that thread
+    let prog = w.program.clone();
+    let party2 = party.clone();
+    let outs = std::thread::Builder::new()
+        .stack_size(1 << 30)
+        .spawn(move || {
+            crate::seams::set_thread_keys(party2.keys.k0, party2.keys.k1);
+            for _ in 0..party2.keys.drift.max(1) {
+                let m: std::collections::HashMap<u8, u8> = std::collections::HashMap::new();
+                std::hint::black_box(&m);
+            }
+            crate::seams::enter_party_clock(party_time_ns(&party2.keys) + warmed * 3_600_000_000_000, party_clock_step_ns(&party2.keys));
+            crate::seams::enter_party_env(party2.env_flip.clone());
+            let outs = run_steps(&prog, &party2.steps);
+            crate::seams::leave_party_env();
+            crate::seams::leave_party_clock();
+            outs
+        })
+        .ok()
+        .and_then(|h| h.join().ok())
+        .unwrap_or_default();
     crate::ALLOC_LIMIT.store(0, std::sync::atomic::Ordering::SeqCst);
     println!("{}", serde_json::to_string(&outs).unwrap());
     println!("ENVQ {}", serde_json::to_string(&crate::seams::take_env_queries()).unwrap());
